@@ -2,7 +2,8 @@
    index checks (Model.v); the proofs are in FlatIndex.v / Access.v / Machine.v.
    Vocabulary: [in_range dims idxs] = as many indices as dimensions, each 0 <= i_k < d_k;
    [row_major dims idxs] = sum_k i_k * prod_{j>k} d_j; [int_range i] = i fits a C++ int.
-   Mirrors /repo at the fix commits ff8053c (index_to_int) and 2bd3a28 (pointer offset guard). *)
+   Mirrors /repo at the fix commits ff8053c (index_to_int), 2bd3a28 (pointer offset guard), f8c96b6 (p[k] into N-D arrays),
+   4d44dbb (struct member subscripts of any rank) and 3ecd7bc (2-D member writes persist). *)
 From Coq Require Import List ZArith Bool Lia.
 Import ListNotations.
 From Cb Require Import C05.Model C05.FlatIndex C05.Access C05.Machine C05.Lemmas.
@@ -33,13 +34,13 @@ Print Assumptions flat_index_surjective.
         integer index: the access is accepted exactly when every index is inside its dimension,
         and then it addresses the row-major cell. [dims_fit]: the declared extents are C++ ints. ---- *)
 Theorem access_accepted_iff_every_index_in_range : forall ak m dims idxs,
-  supported ak dims -> dims_fit dims ->
+  dims_fit dims ->
   ((exists k, resolve ak m dims (size dims) idxs = inl k) <-> in_range dims idxs) /\
   (forall k, resolve ak m dims (size dims) idxs = inl k -> k = row_major dims idxs /\ 0 <= k < size dims).
 Proof. exact access_accepted_iff_every_index_in_range_l. Qed.
 Print Assumptions access_accepted_iff_every_index_in_range.
 
-Theorem access_cells_are_a_bijection : forall ak m dims, supported ak dims -> dims_fit dims ->
+Theorem access_cells_are_a_bijection : forall ak m dims, dims_fit dims ->
   (forall a b k, resolve ak m dims (size dims) a = inl k -> resolve ak m dims (size dims) b = inl k -> a = b) /\
   (positive_dims dims -> forall k, 0 <= k < size dims ->
      exists idxs, in_range dims idxs /\ resolve ak m dims (size dims) idxs = inl k).
@@ -49,7 +50,7 @@ Print Assumptions access_cells_are_a_bijection.
 (* an index that does not fit an int is rejected at every site (was: truncated, finding
    C05-index-narrowed-to-int, fixed by ff8053c); the former witnesses are rejected *)
 Theorem index_outside_int_rejected_at_every_site : forall ak m dims idxs,
-  supported ak dims -> dims_fit dims -> ~ Forall int_range idxs ->
+  dims_fit dims -> ~ Forall int_range idxs ->
   exists e, resolve ak m dims (size dims) idxs = inr e.
 Proof. exact resolve_rejects_non_int_l. Qed.
 Print Assumptions index_outside_int_rejected_at_every_site.
@@ -63,13 +64,13 @@ Theorem former_narrowing_witnesses_rejected :
 Proof. exact former_narrowing_witnesses_rejected_l. Qed.
 Print Assumptions former_narrowing_witnesses_rejected.
 
-(* struct members of rank >= 3: every read is rejected, in range or not, while the write is accepted
-   (known finding C05-struct-member-rank3-rejected) *)
-Theorem member_rank3_in_range_rejected_refuted :
-  exists dims idxs, in_range dims idxs /\ resolve AMember Rd dims (size dims) idxs = inr EBounds /\
-                    resolve AMember Wr dims (size dims) idxs = inl 0.
-Proof. exact member_rank3_in_range_rejected_refuted_l. Qed.
-Print Assumptions member_rank3_in_range_rejected_refuted.
+(* struct members of rank >= 3 (was: every read rejected, finding C05-struct-member-rank3-rejected, repaired):
+   covered by access_accepted_iff_every_index_in_range; the former witness is accepted *)
+Theorem member_rank3_access_accepted :
+  resolve AMember Rd [2; 2; 3] 12 [0; 0; 0] = inl 0 /\ resolve AMember Wr [2; 2; 3] 12 [0; 0; 0] = inl 0 /\
+  resolve AMember Rd [2; 2; 3] 12 [1; 1; 2] = inl 11 /\ resolve AMember Rd [2; 2; 3] 12 [1; 2; 0] = inr EBounds.
+Proof. exact member_rank3_access_accepted_l. Qed.
+Print Assumptions member_rank3_access_accepted.
 
 (* ---- state ---- *)
 Theorem reject_changes_nothing : forall ak dims base s o s' e,
@@ -78,7 +79,7 @@ Proof. exact step_err_unchanged. Qed.
 Print Assumptions reject_changes_nothing.
 
 Theorem write_hits_exactly_one_cell : forall ak dims base s idxs v s',
-  supported ak dims -> dims_fit dims -> wf dims s ->
+  dims_fit dims -> wf dims s ->
   step ak dims base s (OWrite idxs v) = (s', RUnit) ->
   in_range dims idxs /\ ptr s' = ptr s /\
   forall t, in_range dims t ->
@@ -98,19 +99,18 @@ Proof. exact deref_ok. Qed.
 Print Assumptions valid_pointer_always_dereferences.
 
 (* ---- refinement: for every sequence of accesses (reads, writes, &a[i], p+-k, p++/p--, p[k],
-        *p, *(p+k)) with arbitrary integer indices and offsets ([op_ok]: p[k] on rank-1 arrays
-        only, see pointer_index_into_multidim_rejected_refuted), the machine yields the results of
+        *p, *(p+k)) with arbitrary integer indices and offsets, on arrays of any rank, the machine yields the results of
         the shadow array keyed by index tuples, rejects exactly what it rejects, and ends in a
         related state - without `checked` (run stops at the first rejection) and with it ---- *)
 Theorem machine_refines_shadow_array : forall ak dims base ops s ss,
-  env_ok ak dims base -> Forall (op_ok dims) ops -> wf dims s -> R dims s ss ->
+  env_ok dims base -> wf dims s -> R dims s ss ->
   Forall2 same (fst (run_plain ak dims base ops s)) (fst (srun_plain dims ops ss)) /\
   R dims (snd (run_plain ak dims base ops s)) (snd (srun_plain dims ops ss)).
 Proof. exact machine_refines_shadow_array_l. Qed.
 Print Assumptions machine_refines_shadow_array.
 
 Theorem checked_machine_refines_shadow_array : forall ak dims base ops s ss,
-  env_ok ak dims base -> Forall (op_ok dims) ops -> wf dims s -> R dims s ss ->
+  env_ok dims base -> wf dims s -> R dims s ss ->
   Forall2 same (fst (run_checked ak dims base ops s)) (fst (srun_checked dims ops ss)) /\
   R dims (snd (run_checked ak dims base ops s)) (snd (srun_checked dims ops ss)).
 Proof. exact checked_machine_refines_shadow_array_l. Qed.
@@ -118,7 +118,7 @@ Print Assumptions checked_machine_refines_shadow_array.
 
 (* `checked`: every access is processed, and it is an Err exactly when the shadow array rejects it *)
 Theorem checked_access_is_err_iff_rejected : forall ak dims base ops s ss,
-  env_ok ak dims base -> Forall (op_ok dims) ops -> wf dims s -> R dims s ss ->
+  env_ok dims base -> wf dims s -> R dims s ss ->
   List.length (fst (run_checked ak dims base ops s)) = List.length ops /\
   Forall2 (fun r r' => (exists e, r = RErr e) <-> r' = None)
           (fst (run_checked ak dims base ops s)) (fst (srun_checked dims ops ss)).
@@ -147,13 +147,16 @@ Theorem pointer_huge_offset_rejected : forall base n e plus k,
 Proof. exact pointer_huge_offset_rejected_l. Qed.
 Print Assumptions pointer_huge_offset_rejected.
 
-(* p[k] through a pointer into an N-D array is rejected even when it stays inside, although *p
-   on the same pointer succeeds (known finding C05-pointer-index-into-multidim-rejected) *)
-Theorem pointer_index_into_multidim_rejected_refuted :
-  exists dims s, wf dims s /\ snd (step ANamed dims 4096 s ODeref) = RVal 6 /\
-                 snd (step ANamed dims 4096 s (OPtrRead 0)) = RErr EBounds.
-Proof. exact pointer_index_into_multidim_rejected_refuted_l. Qed.
-Print Assumptions pointer_index_into_multidim_rejected_refuted.
+(* p[k] through a pointer into an N-D array (was: always rejected, finding
+   C05-pointer-index-into-multidim-rejected, repaired): covered by machine_refines_shadow_array;
+   the former witness reads the cell *)
+Theorem pointer_index_into_multidim_reads_cell :
+  let s := mkst [1; 2; 3; 4; 5; 6] (Some 5) in
+  snd (step ANamed [2; 3] 4096 s (OPtrRead 0)) = RVal 6 /\ snd (step ANamed [2; 3] 4096 s (OPtrRead (-3))) = RVal 3 /\
+  snd (step ANamed [2; 3] 4096 s (OPtrRead (-5))) = RVal 1 /\ snd (step ANamed [2; 3] 4096 s (OPtrRead 1)) = RErr EBounds /\
+  cells (fst (step ANamed [2; 3] 4096 s (OPtrWrite (-2) 9))) = [1; 2; 3; 9; 5; 6].
+Proof. exact pointer_index_into_multidim_reads_cell_l. Qed.
+Print Assumptions pointer_index_into_multidim_reads_cell.
 
 (* ---- array_get_int / array_set_int: no extent, nothing is ever rejected
         (known finding C05-array-get-set-unchecked) ---- *)
@@ -164,13 +167,11 @@ Proof. exact builtin_array_get_never_rejects_refuted_l. Qed.
 Print Assumptions builtin_array_get_never_rejects_refuted.
 
 (* ---- non-vacuity: the hypotheses are satisfiable and the machine does what one expects ---- *)
-Example env_example : env_ok ANamed [2; 3] 4096 /\ wf [2; 3] (mkst [1; 2; 3; 4; 5; 6] None) /\
-  Forall (op_ok [2; 3]) [ORead [1; 2]; OWrite [0; 1] 42; OAddr [0; 2]; OPtrAdd 1; ODeref; ORead [0; 3]; ORead [0; 0]].
+Example env_example : env_ok [2; 3] 4096 /\ wf [2; 3] (mkst [1; 2; 3; 4; 5; 6] None).
 Proof.
-  split; [|split].
-  - split; [exact I|]. split; [intros d [<-|[<-|[]]]; lia|]. split; [reflexivity|]. split; [lia|unfold two64; cbn; lia].
+  split.
+  - split; [intros d [<-|[<-|[]]]; lia|]. split; [reflexivity|]. split; [lia|unfold two64; cbn; lia].
   - split; reflexivity.
-  - repeat constructor.
 Qed.
 
 Example run_example :
